@@ -230,6 +230,52 @@ def ray_line(path, i, j):
     return f"raygeom {fmat(pts)} {fmat(frs)} {inc} {out} {fl(path.velocities)}"
 
 
+def check_interface_frames(ctx):
+    """the local frame attached to an interface point is the frame the caller gave: one 3x3 basis for all points (rows =
+    basis vectors, as `from_gcs` reads them) is attached unchanged to every point, whatever the dtype of the point
+    coordinates; per-point bases are stored as given; the polar angle measured by RayGeometry is the angle to the third
+    basis vector"""
+    import arim
+    import arim.geometry as g
+    import arim.ray
+
+    rng = ctx.rng
+    block = arim.Material(6320.0, 3130.0, density=2700.0, state_of_matter="solid")
+    for it in range(20 * ctx.scale):
+        n = int(rng.integers(1, 5))
+        B = fixtures.rot3(rng).T           # rows = i_hat, j_hat, k_hat; not symmetric
+        pts_f = np.c_[rng.integers(-9, 10, size=n), rng.integers(-3, 4, size=n), rng.integers(5, 9, size=n)].astype(float)
+        dt = [np.float64, np.int64, np.int32, np.float32][it % 4]
+        pts = pts_f.astype(dt)
+        cj = {"op": "interface_frames", "basis": B.tolist(), "points": pts_f.tolist(), "points_dtype": np.dtype(dt).name}
+        ctx.case(("iframe", it), True)
+        ctx.count("interface_single_basis:" + np.dtype(dt).name)
+        try:
+            itf = arim.Interface(g.Points(pts, "W"), g.Points(B.copy(), "O"), are_normals_on_inc_rays_side=True)
+        except Exception as e:
+            ctx.violate(f"Interface refuses one basis for all points ({np.dtype(dt).name} coordinates): {type(e).__name__}", cj, {"kind": "interface_frame"})
+            continue
+        oc = np.asarray(itf.orientations.coords, dtype=float)
+        if oc.shape != (n, 3, 3) or not all(np.array_equal(oc[k], B) for k in range(n)):
+            ctx.violate(f"an interface built with one basis for all points ({np.dtype(dt).name} coordinates) does not carry that basis at every point "
+                        f"(stored at point 0: {oc[0].tolist() if oc.ndim == 3 else oc.tolist()})", cj, {"kind": "interface_frame"})
+            continue
+        # downstream: the unsigned incoming angle at that interface is the angle between the leg and the third basis vector
+        src = g.Points(np.array([[0.5, -0.25, -7.0]]), "S")
+        p_ = arim.Path((arim.Interface(src, g.default_orientations(src), are_normals_on_out_rays_side=True), itf), (block,), ("L",), name="P")
+        arim.ray.ray_tracing_for_paths([p_])
+        rg = arim.ray.RayGeometry.from_path(p_)
+        ang = np.asarray(rg.inc_angle(1))[0]
+        leg = src.coords[0][None, :] - pts_f
+        want = np.arccos(np.clip((leg @ B[2]) / np.linalg.norm(leg, axis=1), -1, 1))
+        if not np.allclose(ang, want, rtol=0, atol=1e-9):
+            ctx.violate(f"the incoming angle at an interface with one basis for all points is not the angle to its third basis vector: {ang.tolist()} vs {want.tolist()}", cj, {"kind": "interface_frame"})
+        per_point = np.stack([fixtures.rot3(rng).T for _ in range(n)])
+        itf2 = arim.Interface(g.Points(pts, "W"), g.Points(per_point.copy(), "O"))
+        if not np.array_equal(np.asarray(itf2.orientations.coords, dtype=float), per_point):
+            ctx.violate("per-point bases are not stored as given", cj, {"kind": "interface_frame"})
+
+
 def run(ctx):
     from arim import ray
 
@@ -237,6 +283,7 @@ def run(ctx):
     ctx.rule = ("ray-traced paths with 2-5 interfaces, 1-4 points each, random 3-D positions, random orthonormal frames per point (products of three rotations), "
                 "random normal-side flags (30% undeclared somewhere), every ray of each path; boundary stream with identity frames and legs exactly at azimuth +-pi/2, "
                 "0, pi and along the normal; distinct = distinct ray; non-trivial = at least 3 interfaces")
+    check_interface_frames(ctx)
     jobs = []
     for k in range(40 * ctx.scale):
         n = int(rng.integers(2, 6))
